@@ -631,8 +631,9 @@ class Sim(object):
                 self.check(light=True)
         if self.viol:
             return (L, F, 'stopped')
+        no_force = getattr(self, 'no_force_compaction', False)
         for n in self.live():
-            if n != F and (n == L or (c >> 2) & 1):
+            if n != F and (n == L or (c >> 2) & 1) and not no_force:
                 self.nodes[n].forceLogCompaction()
         for _ in range(3):
             for n in self.live():
@@ -660,7 +661,8 @@ class Sim(object):
                     ls = leaders()
                     if ls:
                         self.submit(ls[0], self.payload(1, self.next_cid))
-                        self.nodes[ls[0]].forceLogCompaction()
+                        if not no_force:
+                            self.nodes[ls[0]].forceLogCompaction()
             self.check(light=True)
             if self.viol:
                 break
